@@ -160,7 +160,12 @@ def run(cfg, w):
     if h == "unknown":
         for what, call in [("sum_to", lambda: x.sum_to(("z",))), ("sum_over", lambda: x.sum_over(("Zeta",))),
                            ("sum_to_foreign", lambda: x.sum_to(("q",) + tuple(xd))),
-                           ("shares", lambda: x.get_shares_over(("z",)))]:
+                           ("shares", lambda: x.get_shares_over(("z",))),
+                           # the same through Dimension objects (a foreign one alone, next to known ones, another array's dims)
+                           ("sum_over_object", lambda: x.sum_over((_foreign(),))), ("sum_to_object", lambda: x.sum_to((_foreign(),))),
+                           ("sum_over_object_mixed", lambda: x.sum_over(tuple(xd[:1]) + (_foreign(),))),
+                           ("sum_over_other_dims", lambda: x.sum_over(_foreign().as_dimset())),
+                           ("shares_object", lambda: x.get_shares_over((_foreign(),)))]:
             try:
                 call()
                 w.ob(f"{what}_unknown_dim_rejected", False, info="unknown dimension accepted")
@@ -193,6 +198,12 @@ def run(cfg, w):
             w.ob_eq(f"sum_back{list(idx)}", back.values[idx], X[idx] * mult)
         return
     raise RuntimeError(h)
+
+
+def _foreign():
+    from flodym import Dimension
+
+    return Dimension(name="Zeta", letter="z", items=["z1", "z2"])
 
 
 def _substring_names(cfg, w):
